@@ -57,7 +57,9 @@ package engine
 // State invariant named by the property: whenever delta rules are evaluated, every fact of the delta is already in
 // the store (the other premises of a delta rule are matched against the store).
 //@ spec func deltaInStore(e *engine) bool = forall a ast.Atom :: a in factstore.view(e.deltaStore) ==> a in factstore.view(e.store)
-//@ spec func ewf(e *engine) bool = e.store != nil && e.deltaStore != nil && e.programInfo != nil && e.options.predicateAllowList != nil && allocated(e.store)
+// The main temporal store is not one of the delta stores (ASSUMED of the caller that builds the engine).
+//@ spec func storesApart(e *engine) bool = e.temporalStore != nil ==> e.temporalStore != e.temporalDeltaStore && e.temporalStore != e.deltaStore
+//@ spec func ewf(e *engine) bool = e.store != nil && e.deltaStore != nil && e.programInfo != nil && e.options.predicateAllowList != nil && allocated(e.store) && allocated(e.deltaStore) && allocated(e.temporalDeltaStore) && allocated(e.temporalStore) && storesApart(e)
 
 // mergeDelta adds every delta fact to the store (merge-predicate replacement aside). Contract ASSUMED: its body
 // works through GetAllFacts callbacks and is not verified in this revision.
@@ -107,7 +109,10 @@ package engine
 // round's delta store received a fact, and the loop is left (without error) only with an empty delta.
 //@   loop 6 invariant newDeltaStore != nil && (!incrementalFactAdded ==> (forall a ast.Atom :: a !in factstore.view(newDeltaStore)))
 //@   loop 7 invariant newDeltaStore != nil && (!incrementalFactAdded ==> (forall a ast.Atom :: a !in factstore.view(newDeltaStore)))
-//@   loop 5 invariant allocated(e.store)
+//@   loop 5 invariant allocated(e.store) && allocated(e.deltaStore) && allocated(e.temporalDeltaStore) && allocated(e.temporalStore) && storesApart(e)
+// During a round the delta stores are inputs: the facts a round derives go to the NEXT round's delta stores (and to the main
+// stores), never into the delta stores the round is reading.
+//@   guard call Add in loop 5: recv != e.deltaStore && (e.temporalDeltaStore != nil ==> recv != e.temporalDeltaStore)
 //@   loop 5 atexit forall a ast.Atom :: a !in factstore.view(e.deltaStore)
 // C02: the rows an aggregating rule reduces are collected from ITS internal relation into buffers that are empty when
 // the collection starts (rows of an earlier aggregating rule never enter the groups of a later one).
